@@ -79,9 +79,13 @@ def _tlc_job(cfg, idx, tier):
         if mode == "every_step":
             invs.append("EveryStepReportsEachStep")
             props.append("EveryStepAlwaysSteps")
-        mod = tlc.write_model(
-            wd, f"mc{idx}", "AdaptiveLoop", l0.tla_consts(cfg), invariants=invs, properties=props, constraint="Bounded", view="view"
-        )
+        base = "AdaptiveLoop"
+        if mode == "save_at":
+            # refinement of the unbounded abstraction whose inductive invariant Apalache discharges (spec/LoopGeometry.tla)
+            base = "AdaptiveLoopRefinesGeometry"
+            invs.append("GeometryInvariant")
+            props.append("RefinesGeometry")
+        mod = tlc.write_model(wd, f"mc{idx}", base, l0.tla_consts(cfg), invariants=invs, properties=props, constraint="Bounded", view="view")
         mc = tlc.run_tlc(wd, mod, workers=4, coverage=True, timeout_s=1500, heap="3g")
         live = None
         if mc.ok and mode != "fixed_grid":
@@ -119,9 +123,13 @@ def run(tier: str, seed: int) -> int:
     action_cov = {}
     results = []
     with cf.ThreadPoolExecutor(max_workers=4) as ex:
+        geo = ex.submit(_geometry)
         futs = [ex.submit(_tlc_job, c, i, tier) for i, c in enumerate(cfgs)]
         for f in futs:
             results.append(f.result())
+        for key, what, tail in geo.result():
+            rep.violation(key, what, {"apalache_tail": tail})
+    rep.extra["unbounded_geometry"] = dict(GEOMETRY_INFO)
 
     for cfg, mc, live, behs, gen_states in results:
         name = cfg["_name"]
@@ -168,6 +176,46 @@ def run(tier: str, seed: int) -> int:
         "histories are bounded by MaxAtt attempts per configuration; controllers are replayed with integer exponents",
     ]
     return rep.finish()
+
+
+GEOMETRY_INFO = {}
+GEOMETRY_MUTANTS = {
+    # each must be REJECTED by the inductive step (vacuity guard for the proof obligation itself)
+    "beyond-keeps-interp_from-at-step_from": ("  /\\ ifrt' = t1\n", "  /\\ ifrt' = sft\n"),
+    "at-branch-without-lower-guard": ('  /\\ pc = "interp" /\\ ~IsBefore /\\ ~IsAfter\n', '  /\\ pc = "interp" /\\ ~IsAfter\n'),
+    "clip-to-the-wrong-distance": ("Min2(rdt, t1 - rsft)", "Min2(rdt, t1 - rsft + 1)"),
+}
+
+
+def _geometry():
+    """Apalache: IndInv of spec/LoopGeometry.tla is inductive for every layout / eps / controller / attempt count."""
+    import os
+
+    from harness import apalache
+
+    out = []
+    obligations = [("Init", "IndInv", 0, "initial states satisfy the invariant"),
+                   ("IndInit", "IndInv", 1, "the invariant is preserved by every action"),
+                   ("IndInit", "Consequences", 0, "the invariant implies the user-facing consequences")]
+    secs = 0.0
+    for init, inv, length, what in obligations:
+        ok, s, tail = apalache.check("LoopGeometry", init, inv, length, "CInit")
+        secs += s
+        if not ok:
+            out.append((f"spec:geometry:{inv}:{length}", f"Apalache: {what} - refuted on LoopGeometry.tla", tail))
+    src = open(os.path.join(tlc.SPEC_DIR, "LoopGeometry.tla")).read()
+    rejected = 0
+    for name, (a, b) in GEOMETRY_MUTANTS.items():
+        if a not in src:
+            raise tlc.MachineryError(f"geometry mutant {name}: anchor text not found in LoopGeometry.tla")
+        ok, s, _ = apalache.check("LoopGeometry", "IndInit", "IndInv", 1, "CInit", source=src.replace(a, b))
+        secs += s
+        if ok:
+            raise tlc.MachineryError(f"vacuous proof obligation: mutated LoopGeometry ({name}) still passes the inductive step")
+        rejected += 1
+    GEOMETRY_INFO.update(tool="apalache-mc 0.58 (SMT, unbounded integers)", obligations=len(obligations), mutants_rejected=rejected, seconds=round(secs, 1),
+                         scope="all checkpoint layouts and lengths, all eps >= 0, clip on/off, any controller/estimator, any number of attempts (save_at mode)")
+    return out
 
 
 def _real_traces(rep, tier, seed):
